@@ -111,7 +111,7 @@ def run_riscv(ctx):
     quick = ctx.tier == "quick"
     rv_model(ctx, quick)
     for xlen in (32, 64):
-        rv_generate(ctx, xlen, "RVGen%d.cfg" % xlen, "sim", simulate="num=%d" % (1200 if quick else 40000), depth=8)
+        rv_generate(ctx, xlen, "RVGen%d.cfg" % xlen, "sim", simulate="num=%d" % (1200 if quick else 20000), depth=8)
         if not quick:
             rv_generate(ctx, xlen, "RVGen%d_grid.cfg" % xlen, "grid")
         rv_traces(ctx, xlen, 160 if quick else 6000, 6 if quick else 8)
@@ -195,7 +195,7 @@ def run_x86(ctx):
     # fresh vectors on the host processor, when there is one
     if c06x86.have_runner():
         recs = sorted(forms.values(), key=c06x86.form_key)
-        n = 700 if quick else 40000
+        n = 700 if quick else 20000
         vs = []
         while len(vs) < n:
             rec = rng.choice(recs)
@@ -212,7 +212,31 @@ def run_x86(ctx):
         ctx.note("x86_host_cpu_used", False)
 
 
+def run_replay(ctx):
+    """./check C06 --replay PATH: re-execute the recorded case on the current tree and let TLC judge it again"""
+    import json
+    with open(ctx.replay) as f:
+        case = json.load(f)["case"]
+    isa = case["isa"]
+    if isa.startswith("rv"):
+        xlen = int(isa[2:])
+        tr = {"t": 1, "xlen": xlen, "steps": [c06rv.replay_step(xlen, case["step"])]}
+        v = c06rv.validate(ctx, [tr], xlen, "replay")
+        c06rv.report(ctx, [tr], v, xlen, "replay")
+    else:
+        v = case["vector"]
+        ams = [c06x86.amoco_run(v, isa)]
+        tr = c06x86.to_trace(1, v, case["cpu"], ams)
+        verdicts = c06x86.validate(ctx, [tr], "r")
+        c06x86.report(ctx, [v], [tr], verdicts, "replay")
+    ctx.case(n=1)
+    ctx.trace(1)
+
+
 def run(ctx):
+    if ctx.replay:
+        ctx.rule = "replay of one recorded case"
+        return run_replay(ctx)
     ctx.rule = ("RISC-V: one case = one instruction word applied to one fully concrete state (32 registers, pc, memory) "
                 "and compared on all registers, pc and all memory bytes with the TLA+ reference interpreter specs/RVIsa.tla; "
                 "distinct = distinct (xlen, instruction, rd=rs1, rd=x0, rs1=rs2, operand/immediate classes) for generated "
